@@ -21,6 +21,7 @@ def numType? : String → Option NumType
 def itemType? : String → Option ItemType
   | "IDENT" => some .ident | "STRING" => some .string | "URI" => some .uri | "HASH" => some .hash
   | "UNICODE-RANGE" => some .unicodeRange | "CHAR" => some .char | "FUNCTION" => some .function
+  | "S" => some .s | "OTHER" => some .other
   | _ => none
 
 def showOpt : Option Cps → String
@@ -128,6 +129,17 @@ def pvItems? : Nat → List String → Option (List PVItem)
       | some (c, r) => (pvItems? n r).map (PVItem.comp c :: ·)
       | none => none
 
+/-- the items `TYPE:hex` of an `outseq` request -/
+def outItems? : List String → Option (List (ItemType × Cps))
+  | [] => some []
+  | w :: rest =>
+    match w.splitOn ":" with
+    | [k, h] =>
+      match itemType? k, decCps h, outItems? rest with
+      | some t, some v, some l => some ((t, v) :: l)
+      | _, _, _ => none
+    | _ => none
+
 def handle (line : String) : String :=
   match words line with
   | ["num", olz, mch, sp, lis, ty, tv] =>
@@ -173,6 +185,11 @@ def handle (line : String) : String :=
   | "pv" :: olz :: mch :: sp :: lis :: ws =>
     match prefs? olz mch sp lis, pvItems? (ws.length + 1) ws with
     | some p, some items => exc (fmtPV f64Ops p items)
+    | _, _ => "bad-op"
+  | "outseq" :: olz :: mch :: sp :: lis :: ws =>
+    -- `out = Out(ser); for t, v in items: out.append(v, t); out.value()`
+    match prefs? olz mch sp lis, outItems? ws with
+    | some p, some items => "OK " ++ encCps (outValue (items.foldl (fun o tv => outAppend p o tv.2 false tv.1) []))
     | _, _ => "bad-op"
   | ["tokval", k, tv] =>
     match decCps tv with
